@@ -73,9 +73,11 @@ def make_record(vc, rid, case):
     if kind == "width":
         w = float(Decimal(unit))
         unitf = w / 2.0
-        data = np.array([dec_float(k, unit, 2) for k in ks])
         vr = case["vrange"]  # None or (lo_k or None, hi_k or None) in lattice units
-        vrf = None if vr is None else tuple(None if a is None else dec_float(a, unit, 2) for a in vr)
+        woff = case.get("offset", 0) if (vr is not None and None not in vr) else 0   # float lattice shifted by woff units
+        data = np.array([dec_float(k + woff, unit, 2) for k in ks])
+        vrf = None if vr is None else tuple(None if a is None else dec_float(a + woff, unit, 2) for a in vr)
+        shift = 4 * woff
         rec.update(ropen=case["ropen"], upw=2, exact=unit in DYADIC,
                    lo=(vr[0] if vr and vr[0] is not None else 0),
                    hi=(vr[1] if vr and vr[1] is not None else max(ks)), data=list(ks))
@@ -104,8 +106,26 @@ def make_record(vc, rid, case):
         rec.update(n=n, lastfull=case["lastfull"], data=list(ks), refkind="median")
         mk = lambda **kw: vc.PointsPerIntervalSlicer(n, last_full=case["lastfull"], **kw)
         eps = 1e-9 * unitf
-    shift = shift if kind == "number" else 0
+    shift = shift if kind in ("number", "width") else 0
     data0 = data.copy()
+    if case.get("reuse"):
+        # history: ONE slicer object first slices another vector (different range), then this one
+        mk0 = mk
+        cache = {}
+
+        def mk(**kw):   # noqa: F811
+            key = tuple(sorted(kw.items()))
+            if key not in cache:
+                obj = mk0(**kw)
+                decoy = np.concatenate([data * 0.5 + 3.0 * unitf, data[:1] + 40.0 * unitf]) if kind != "points" else np.concatenate([data, data + unitf])
+                try:
+                    with warnings.catch_warnings():
+                        warnings.simplefilter("ignore")
+                        obj.slice_(decoy)
+                except Exception:  # noqa
+                    pass
+                cache[key] = obj
+            return cache[key]
     with warnings.catch_warnings():
         warnings.simplefilter("ignore")
         try:
@@ -178,10 +198,12 @@ def cases(ctx):
         # width slicer: data in half-width units
         for unit in UNITS:
             for ropen in (True, False):
-                for vr in (None, (1, None), (0, 4)):
+                for vr in (None, (1, None), (0, 4), (0, 2)):
                     ci += 1
+                    # offset -hi with the range (0, hi): the float range is (-hi*w/2, 0): an upper limit of exactly 0
                     yield dict(kind="width", data=list(v), unit=unit, ropen=ropen, vrange=vr,
-                               ref=refs[ci % 4], minpts=mm[ci % 5][0], minint=mm[ci % 5][1])
+                               offset=(-vr[1] if (vr and vr[1] and (vr[1] == 2 or ci % 2)) else 0),
+                               reuse=(ci % 3 == 0), ref=refs[ci % 4], minpts=mm[ci % 5][0], minint=mm[ci % 5][1])
         # number slicer
         for n in (1, 2, 3):
             for incmax in (True, False):
@@ -189,7 +211,7 @@ def cases(ctx):
                     for unit in (UNITS if not ctx.quick else [UNITS[(ci + n) % 5], UNITS[(ci + n + 2) % 5]]):
                         ci += 1
                         yield dict(kind="number", data=list(v), unit=unit, n=n, incmax=incmax,
-                                   vrange=vr, offset=(ci % 3), ref=refs[ci % 4],
+                                   vrange=vr, offset=[0, 1, 2, -4][ci % 4], reuse=(ci % 3 == 0), ref=refs[ci % 4],
                                    minpts=mm[ci % 5][0], minint=mm[ci % 5][1])
         # points slicer
         for n in (1, 2, 3):
@@ -197,7 +219,7 @@ def cases(ctx):
                 continue
             for lastfull in (True, False):
                 ci += 1
-                yield dict(kind="points", data=list(v), unit=UNITS[ci % 5], n=n, lastfull=lastfull,
+                yield dict(kind="points", data=list(v), unit=UNITS[ci % 5], n=n, lastfull=lastfull, reuse=(ci % 3 == 0),
                            ref="median", minpts=mm[ci % 5][0], minint=mm[ci % 5][1])
 
 
